@@ -30,6 +30,11 @@ Decoder BinaryIStream::make_decoder(size_t n)
     }
     std::vector<uint8_t> vec(n);
     s_.read(reinterpret_cast<char*>(vec.data()), n);
+    if (n != 0 && !s_) {
+        // the stream delivered fewer bytes than its size promised (I/O error):
+        // never hand out a partially zero-filled buffer as if it were file content
+        throw parse_error("make_decoder: reading from the stream failed.");
+    }
     pos_ += n;
     return Decoder(std::move(vec));
 }
